@@ -94,18 +94,16 @@ func (r *Reader) readIloc(b *box) (err error) {
 		ent.count = bmffEndian.Uint16(buf[i : i+2])
 		i += 2
 
-		for j := 0; j < int(ent.count); j++ {
+		// Only the first extent is used. (The count comes from the file: a loop over
+		// it that does nothing for the other extents still runs 65535 times per
+		// 6-byte item.)
+		if ent.count > 0 && i+int(ilb.offsetSize)+int(ilb.lengthSize) <= len(buf) {
 			var ol offsetLength
-			if j == 0 {
-				if i+int(ilb.offsetSize)+int(ilb.lengthSize) > len(buf) {
-					break
-				}
-				ol.offset = uintN(ilb.offsetSize, buf[i:i+int(ilb.offsetSize)])
-				i += int(ilb.offsetSize)
-				ol.length = uintN(ilb.lengthSize, buf[i:i+int(ilb.lengthSize)])
-				i += int(ilb.lengthSize)
-				ent.firstExtent = ol
-			}
+			ol.offset = uintN(ilb.offsetSize, buf[i:i+int(ilb.offsetSize)])
+			i += int(ilb.offsetSize)
+			ol.length = uintN(ilb.lengthSize, buf[i:i+int(ilb.lengthSize)])
+			i += int(ilb.lengthSize)
+			ent.firstExtent = ol
 		}
 		if optionSpeed == 0 {
 			ilb.items = append(ilb.items, ent)
